@@ -63,12 +63,14 @@ THEOREMS = [
     "Cotengra.C01.admissibleCore_sound",
     "Cotengra.C01.model_extract_admissible",
     "Cotengra.C01.model_extract_admissible_inds",
+    "Cotengra.C01.model_extract_admissible_sorted",
     "Cotengra.C01.model_contract_correct",
     "Cotengra.C01.run_order_irrelevant",
     "Cotengra.C01.run_order_irrelevant_model",
     "Cotengra.C01.IsEinsum.at_pos",
     "Cotengra.childrenFirst_internal",
     "Cotengra.inds_ok",
+    "Cotengra.sortInds_ok",
     "Cotengra.sumOver_fubini",
     "Cotengra.sumOver_perm",
     "Cotengra.einsum2_sem",
